@@ -108,6 +108,7 @@ def run_check(prop, tier, jobs, level_text, assumptions, require_reach=(), seed=
     herrs = []
     inconclusive = []
     jobrows = []
+    twin_seen = [0]
     for r in results:
         merge_counts(stats, r.get('stats'))
         merge_counts(reach, r.get('reach'))
@@ -143,6 +144,9 @@ def run_check(prop, tier, jobs, level_text, assumptions, require_reach=(), seed=
         for mm in r.get('mismatches') or []:
             herrs.append(dict(job=name, why='symbolic record differs from the pristine implementation', detail=mm))
         for v in r.get('violations') or []:
+            if spec.get('twin_job') or v.get('key', '').startswith(('twin-assert-false', 'twin_false')):
+                twin_seen[0] += 1        # the reachability twin came back violated, as it must
+                continue
             sig = sig_of(prop, spec, v)
             kf = match_known(known, prop, sig)
             if kf is not None:
@@ -152,6 +156,8 @@ def run_check(prop, tier, jobs, level_text, assumptions, require_reach=(), seed=
     for ev in require_reach:
         if not reach.get(ev):
             inconclusive.append('reachability witness never seen: %s' % ev)
+    if any(j.get('twin') or j.get('twin_job') for j in jobs) and not twin_seen[0]:
+        inconclusive.append('vacuity twin (assert False) was not reported as violated')
 
     # report
     rc = 0
@@ -201,6 +207,7 @@ def run_check(prop, tier, jobs, level_text, assumptions, require_reach=(), seed=
         reachability=reach,
         stubs=stubs,
         known_findings_matched={k: d['n'] for k, d in known_hits.items()},
+        vacuity_twin_violations=twin_seen[0],
         inconclusive=inconclusive,
         harness_errors=len(herrs),
         explanation=level_text,
